@@ -68,13 +68,6 @@ func cbrtCase(t *mon.T, which string, c dec.Ctx, x dec.D) {
 	}
 	if o.Err != nil {
 		cls := ""
-		if c.P <= 2 && abs64(x.Adj()) >= 3000 {
-			// KF-C11-cbrt-nonconvergence: the range reduction multiplies by 8
-			// (or 1/8) about 1.1*|adjusted exponent| times at 2p+2 digits; at
-			// p <= 2 the accumulated rounding error ruins the initial estimate.
-			cls = "cbrt_nonconvergence_tiny_precision_huge_exponent"
-			t.Count("cbrt/nonconvergence")
-		}
 		t.FailClass("unexpected-error", cls, detail("cbrt", c, x, dec.D{}, o, "error with empty trap set"))
 		return
 	}
@@ -170,8 +163,7 @@ func cbrtCase(t *mon.T, which string, c dec.Ctx, x dec.D) {
 
 func cbrtOperand(r *rng.R, c dec.Ctx) dec.D {
 	x := gen.Finite(r, c)
-	if abs64(x.E) > 400 && !r.Chance(1, 40) {
-		// Cbrt's range reduction is linear in the exponent; keep most cases cheap.
+	if abs64(x.E) > 400 && r.Chance(1, 2) {
 		x.E = x.E % 400
 	}
 	if x.IsZero() {
@@ -271,6 +263,15 @@ func runC11(r *mon.Run) {
 		x := dec.D{Form: dec.Finite, C: new(big.Int).Mul(new(big.Int).Mul(root, root), root), E: 0}
 		cbrtCase(t, "value", dec.Ctx{P: 14, Emin: -99, Emax: 99, Mode: "half_even"}, x)
 		t.Count("pinned")
+		// fixed: Cbrt did not converge at Precision 1 or 2 with exponents in the thousands
+		for _, w := range []struct {
+			c int64
+			e int64
+			p int64
+		}{{95, -65003, 1}, {1, -42688, 1}, {170, -81343, 1}, {8, -77890, 1}, {27, 99000, 2}, {64, -99000, 2}} {
+			cbrtCase(t, "value", dec.Ctx{P: w.p, Emin: -100000, Emax: 100000, Mode: "half_up"}, dec.D{Form: dec.Finite, Neg: w.c%2 == 1, C: big.NewInt(w.c), E: w.e})
+			t.Count("pinned")
+		}
 		// fixed: Cbrt(4.913E-9) at p=3 under RoundCeiling returned 0.00171 (exact root 0.0017)
 		for _, m := range []string{"ceiling", "up", "05up", "floor"} {
 			for _, neg := range []bool{false, true} {
@@ -278,12 +279,6 @@ func runC11(r *mon.Run) {
 				t.Count("pinned")
 			}
 		}
-	})
-	r.Witness("KF-C11-cbrt-nonconvergence", func() (bool, string) {
-		c := dec.Ctx{P: 1, Emin: -100000, Emax: 100000, Mode: "half_up"}
-		x := dec.D{Form: dec.Finite, Neg: true, C: big.NewInt(95), E: -65003}
-		o := CallArith("cbrt", br.Context(c, 0), x, dec.D{})
-		return o.Err != nil, fmt.Sprintf("Cbrt(%s) at %s: err=%v", x, c, o.Err)
 	})
 	for _, cl := range []string{"class/exact-root", "class/inexact-root", "class/perfect-cube", "class/cbrt-inexact", "sqrt/hard-case"} {
 		r.Require(cl, 100)
